@@ -29,11 +29,14 @@ class C02(DiffProperty):
                   "C02_queue_push_refines (one mpt_queue_push on a wrapped ring in any state keeps the stream-level encoder invariant, every branch: aligned, upper "
                   "part, lower part, out-of-band copy of a straddling block, second push, align-and-retry), C02_ring_writer_invariant, C02_ring_writer_total (no "
                   "history of pushes/terminations/transport steps faults) and C02_ring_writer_stream (on a ring of any capacity/offset: transport bytes + ring "
-                  "contents = the frames of the completed messages, each delivered by the decoder loop). Ring level, reader (queue_recv recovery, queue_shift): "
+                  "contents = the frames of the completed messages, each delivered by the decoder loop). End to end (C02_stream_end_to_end): any prefix of that stream, cut "
+                  "into any pieces and fed to any sequence of decoder calls (call-level model of mpt_decode_cobs*), delivers a prefix of the sent messages in order. "
+                  "Ring level, reader (queue_recv recovery, queue_shift): "
                   "executable mechanism model compared with the implementation after every operation, decided against the specification 'received = sent' on "
                   "rings of many capacities/offsets with arbitrary wire cuts incl. single-byte delivery")
     level_note = ("partial: the reader-side ring code (mpt_queue_recv, mpt_queue_shift, mpt_message_get) has an executable mechanism model compared with the "
-                  "implementation after every operation (ring offsets/lengths, decoder state, contents) but its refinement to the flat decoder is not a theorem "
+                  "implementation after every operation (ring offsets/lengths, decoder state, contents) but its refinement to the flat decoder calls is not a theorem; "
+                  "'everything arrives after a drain' is proved per frame at loop level only, decided for call histories by the correspondence run "
                   "(the writer-side ring code is proved for all branches); mptio stream glue (sockets, poll) is not executed. Theorems closed under the global context.")
     technique = "Coq theorems: composition encoder o wire o decoder (flat level) and ring-level writer refinement (history invariant); specification-level differential check of the ring-level mechanism model"
     coq_dir = "Cobs"
